@@ -70,7 +70,7 @@ def descriptor_samples(d, rng):
         if d[1] in ('date',): return ['2000-01-01'], None
         if d[1] in ('dateTime',): return ['2000-01-01T00:00:00'], None
         if d[1] in ('time',): return ['12:00:00'], None
-        if d[1] == 'QName': return ['chart:bar', 'ooo:x.y-z', 'bar'], None
+        if d[1] == 'QName': return ['chart:bar', 'ooo:x.y-z', 'bar', 'my-ext:bar', 'x.y:z'], None
         return list(FREE[:6]), None
     if t == 'choice':
         vals = []
@@ -96,7 +96,11 @@ def valid_by_descriptor(d, v):
         if d[2] is None and d[1] in ('NCName', 'ID', 'IDREF'): return True if is_ncname(v) else None
         if d[2] is None and d[1] in ('anyURI', 'string'): return True          # XML Schema: no string is excluded from the lexical space of anyURI in practice
         if d[2] is None and d[1] == 'language': return True if re.fullmatch(r'[a-zA-Z]{1,8}(-[a-zA-Z0-9]{1,8})*', v) else None      # XML Schema part 2, 3.3.3
-        if d[2] is None and d[1] == 'QName': return True if re.fullmatch(r'([A-Za-z_][\w.\-]*:)?[A-Za-z_][\w.\-]*', v) else None
+        if d[2] is None and d[1] == 'QName':
+            # one or two NCNames with a colon between; white space around the value is collapsed by the type (left undecided here)
+            w = v.strip(' \t\r\n'); parts = w.split(':')
+            good = 1 <= len(parts) <= 2 and all(is_ncname(x) for x in parts)
+            return (True if v == w else None) if good else False
         if d[2] is not None:
             if '$' in d[2] or '\\i' in d[2] or '\\c' in d[2]: return None
             try: return re.fullmatch(d[2], v) is not None
@@ -132,6 +136,7 @@ def run(ctx):
             vals = vals[:5] + ['1cm', '10%', '-1.5mm', 'new', 'replace', 'embed', 'none', 'true', 'TRUE'] + [x for v in valid[:2] for x in near_misses(v)[:3]] + vals[5:]
             for v in valid[:3]: vals += near_misses(v)
             vals += ['yes', '0 0 1 1', 'a b:c']
+            if desc[0] == 'data' and desc[1] == 'QName': vals = vals[:12] + ['0a:b', 'a:-b', 'a:b:c', ':b', 'a:'] + vals[12:]       # names that are no names
         else:
             vals += FREE[:4]
         vals = list(dict.fromkeys(vals))[: (18 if ctx.quick else 48)]
@@ -165,7 +170,8 @@ def run(ctx):
         ctx.corr('converter of %s on %s:%s' % (a[1], el[1], f), vals, model, real)
         for v, x in zip(vals, m):
             ok = valid_by_descriptor(desc, v)
-            if ok is not None and (x[1] == '1') != ok and T[(el, a)][0] != 'choice':
+            # (the model has no lexical space for a bare xsd:QName - the oracle above judges those)
+            if ok is not None and (x[1] == '1') != ok and T[(el, a)][0] != 'choice' and not (desc[0] == 'data' and desc[1] == 'QName' and desc[2] is None):
                 ctx.corr('lexical space of %s on %s (model vs python re on the schema pattern)' % (a[1], el[1]), v, x[1] == '1', ok)
         if kind != 'id': ctx.nt((el, a))
         ctx.bump('kind=' + kind)
